@@ -68,6 +68,10 @@ def _maxl(*a):
     return max(a)
 
 
+def _psum(*a):
+    return sum(a)
+
+
 def _truediv(a, b):
     return a / b
 
@@ -132,10 +136,10 @@ def ev(e, env, over=None, log=None, faults=None):
         return e
     t = type(e)
     if isinstance(e, p.Sum):
-        acc = 0
-        for c in e.children:
-            acc = ap(operator.add, acc, r(c))
-        return acc
+        # Python's own sum(): 0 + v1 + v2 + ... in operand order (CPython >= 3.12
+        # compensates float addition; using the builtin keeps float by-products
+        # bit-identical with any evaluator that sums the same way)
+        return ap(_psum, *[r(c) for c in e.children])
     if isinstance(e, p.Product):
         acc = 1
         for c in e.children:
